@@ -7,7 +7,7 @@ from ref.hashes import Drbg
 ID = "C05"
 LEVEL = "exploration"
 CONFIGS = {"quick": ["san", "mx_i64", "mx_i128s_nv", "mx_noasm", "mx_i64_nv"],
-           "thorough": ["san", "san_nv", "mx_i64", "mx_i64_nv", "mx_i128s", "mx_i128s_nv", "mx_noasm", "mx_noasm_nv", "mx_clang", "mx_w2"]}
+           "thorough": ["san", "san_nv", "mx_i64", "mx_i64_nv", "mx_i128s", "mx_i128s_nv", "mx_noasm", "mx_noasm_nv", "mx_clang", "mx_w2"] + ["mx_win%d" % w for w in range(3, 15)]}
 RULE = ("internal field / scalar / int128 / group / scalar-multiplication / hash routines exposed by the shim, driven with edge-biased 256-bit operands "
         "(0, 1, p-1, p, n-1, n, 2^k, 2^k-1, limb-boundary patterns, lambda-split boundaries), every magnitude 1..32 each routine permits (two "
         "materialisations with near-maximal limbs), point pairs incl. P+P, P+(-P), P+infinity, the beta*x family, Jacobian rescalings, batch sizes "
@@ -460,6 +460,9 @@ def wl_hash(ctx, config, scale):
 
 def run(ctx):
     for i, config in enumerate(ctx.configs):
+        if config.startswith("mx_win"):
+            # window-size sweep: only the routines that use the precomputed odd-multiples tables
+            wl_ecmult(ctx, config, 0.12); continue
         scale = 1.0 if i == 0 else (0.35 if ctx.quick else 0.5)
         wl_field(ctx, config, scale); wl_scalar(ctx, config, scale); wl_reduce(ctx, config, scale); wl_int128(ctx, config, scale)
         wl_group(ctx, config, scale); wl_ecmult(ctx, config, scale); wl_scratch_sweep(ctx, config, scale); wl_hash(ctx, config, scale)
